@@ -89,6 +89,30 @@ def run(payload):
                 if dev > 1e-8 * (1 + float(np.max(np.abs(want)))) or steps != n or abs(tf - (t0 + n * dt)) > 1e-9:
                     fails.append({"id": f"{solver}.{backend}", "a": str(a), "b": b, "dt": dt, "n": n, "t0": t0, "kwargs": kw, "with_tracker": trackers is not None,
                                   "deviation": dev, "steps": steps, "t_final": tf, "u0": u0.tolist()})
+    # ---- adaptive stepping: ends exactly at t_end, global error <= accepted steps x tolerance (autonomous dissipative linear problem)
+    for solver in ["euler", "runge-kutta"]:
+        results = {}
+        for backend in ["numpy", "numba"]:
+            for rep in range(max(1, payload.get("reps", 2) // 2)):
+                a = float(rng.uniform(-2.0, -0.2))
+                tol = float(rng.choice([1e-3, 1e-5]))
+                T = float(rng.choice([0.5, 1.37, 3.0]))
+                t0 = float(rng.choice([0.0, 2.0]))
+                u0 = rng.uniform(0.5, 2, 3)
+                cases += 1
+                try:
+                    res, info = Lin(a).solve(ScalarField(grid, u0), t_range=(t0, t0 + T), dt=1e-3, solver=solver, backend=backend, tracker=None,
+                                             ret_info=True, adaptive=True, tolerance=tol)
+                except Exception as e:
+                    fails.append({"id": f"adaptive.{solver}.{backend}", "error": f"{type(e).__name__}: {e}"})
+                    continue
+                exact = u0 * np.exp(a * T)
+                steps = info["solver"]["steps"]
+                err = float(np.max(np.abs(res.data - exact)))
+                tf = info["controller"]["t_final"]
+                if abs(tf - (t0 + T)) > 1e-12 * max(1, abs(t0 + T)) or err > steps * tol * 1.0001 + 1e-12:
+                    fails.append({"id": f"adaptive.{solver}.{backend}", "a": a, "tolerance": tol, "T": T, "t0": t0, "t_final": tf, "steps": steps, "global_error": err, "bound": steps * tol})
+                results[(backend, rep)] = (res.data, a, tol, T, steps)
     return {"ok": True, "cases": cases, "failures": fails}
 
 
